@@ -6,7 +6,7 @@ SPEC = {
         "technique": ("machine-checked proof in Coq (ChallengeField/DigestValue over an abstract hash, an explicit os.urandom "
                       "stream, abstract utf-8 and base64 with their laws as premises) + bit-for-bit model/implementation "
                       "correspondence by vm_compute with digests recomputed by hashlib directly"),
-        "text": ("Seventeen theorems in coq/theories/Challenge*.v for all six algorithms, all secrets and all random streams: "
+        "text": ("Twenty-one theorems in coq/theories/Challenge*.v for all six algorithms, all secrets and all random streams: "
                  "assigning p stores exactly DigestValue(salt, H(salt ++ bytes p), alg) where salt is the next digest_size bytes "
                  "of the urandom stream, which advances by exactly that; the salt has the digest's length; a challenge succeeds "
                  "exactly when the candidate hashes to the stored digest, hence p always verifies and (for a collision-free H, "
@@ -17,9 +17,12 @@ SPEC = {
                  "kept (state, on-disk map, str()) is a function of (alg, salt, H(salt ++ bytes p)) only. The model is tied to "
                  "secure_field.py by running the same operation sequences on a real Schema/Config under a recorded os.urandom, "
                  "through json/yaml/bson/xml/pickle, and comparing every observation inside Coq; the model's hash is a per-case "
-                 "table filled from hashlib directly, its utf-8 and base64 are concrete Gallina functions."),
+                 "table filled from hashlib directly, its utf-8 and base64 are concrete Gallina functions, for which the two codec "
+                 "premises are proved outright (utf8_enc injective; b64_decode(b64_encode b) = b on bytes, b64_decode being "
+                 "CPython's lenient decoder), so save/load keeps salt and digest for any hash function."),
         "note": ("Trusted: Coq kernel + vm_compute; the correspondence harness; hashlib/str.encode/base64 enter the theorems as "
-                 "universally quantified functions with named premises; 'every other secret fails' is proved under the "
+                 "universally quantified functions with named premises (the codec premises are additionally discharged for the "
+                 "concrete Gallina codecs the correspondence compares with CPython); 'every other secret fails' is proved under the "
                  "idealisation H a x = H a y -> x = y (collision freedom), and exactly (no idealisation) as 'fails iff the "
                  "digests differ'. No axioms (Print Assumptions: closed under the global context)."),
         "design_ref": "DESIGN.md section 6 C09"},
@@ -35,8 +38,9 @@ SPEC = {
     "trusted_base": [KERNEL, "Print Assumptions: closed under the global context (no axioms)", TIE, HARNESS,
                      "modelled, not verified: hashlib as a function H with |H a x| = digest_size a (theorems) and as a per-case "
                      "table of digests obtained from hashlib directly (correspondence); os.urandom as a recorded byte stream; "
-                     "str.encode and base64 as functions with the premises utf8 injective and b64dec(b64enc b) = b (theorems), "
-                     "as concrete Gallina codecs compared with CPython's on every case (correspondence)",
+                     "str.encode and base64 as functions with the premises utf8 injective and b64dec(b64enc b) = b (general theorems); "
+                     "both premises are proved for the concrete Gallina codecs (C09_utf8_injective, C09_b64_roundtrip), whose "
+                     "agreement with CPython's str.encode / base64 is checked on every case, not proved",
                      "idealisation (premise of C09_challenge_other_fails, C09_challenge_other_str_fails, "
                      "C09_assign_then_challenge): the hash is collision free, H a x = H a y -> x = y",
                      "the five codecs are trusted to return the {salt, digest} map of two ASCII strings they were given "
